@@ -25,26 +25,26 @@ set_option linter.constructorNameAsVariable false
 namespace CV.C15
 open CV CV.GenFlat CV.GenReg CV.GenStruct CV.C01
 
-theorem comm_law (L : Layout) (m : Mem) (v : String) (op : BOp) (a b : Atom) (h : op.commutes = true) :
-    spec L m (.bin v op a b) = spec L m (.bin v op b a) := by
+theorem comm_law (L : Layout) (m : Mem) (x y : Byte) (v : String) (op : BOp) (a b : Atom) (h : op.commutes = true) :
+    spec L m x y (.bin v op a b) = spec L m x y (.bin v op b a) := by
   cases op <;> simp [BOp.commutes] at h <;>
     simp [spec, BOp.apply, BitVec.add_comm, BitVec.and_comm, BitVec.or_comm, BitVec.xor_comm]
 
-theorem opassign_law (L : Layout) (m : Mem) (v : String) (op : BOp) (a : Atom) :
-    spec L m (.opasg v op a) = spec L m (.bin v op (.var v) a) := by
+theorem opassign_law (L : Layout) (m : Mem) (x y : Byte) (v : String) (op : BOp) (a : Atom) :
+    spec L m x y (.opasg v op a) = spec L m x y (.bin v op (.var v) a) := by
   simp [spec, val]
 
-theorem incr_law (L : Layout) (m : Mem) (v : String) :
-    spec L m (.inc v) = spec L m (.opasg v .add (.const 1)) := by
+theorem incr_law (L : Layout) (m : Mem) (x y : Byte) (v : String) :
+    spec L m x y (.inc v) = spec L m x y (.opasg v .add (.const 1)) := by
   simp [spec, val, BOp.apply]
 
-theorem decr_law (L : Layout) (m : Mem) (v : String) :
-    spec L m (.dec v) = spec L m (.opasg v .sub (.const 1)) := by
+theorem decr_law (L : Layout) (m : Mem) (x y : Byte) (v : String) :
+    spec L m x y (.dec v) = spec L m x y (.opasg v .sub (.const 1)) := by
   simp [spec, val, BOp.apply]
 
 /-- two spellings with the same meaning compile to code with the same effect, from every state -/
 theorem compiled_equiv (L : Layout) (s₁ s₂ : FStmt) (c : Cpu)
-    (hsame : spec L c.mem s₁ = spec L c.mem s₂) :
+    (hsame : spec L c.mem c.x c.y s₁ = spec L c.mem c.x c.y s₂) :
     ∃ c₁ c₂, execSeq c (genOps L s₁) = some c₁ ∧ execSeq c (genOps L s₂) = some c₂ ∧
       c₁.mem = c₂.mem ∧ c₁.x = c₂.x ∧ c₁.y = c₂.y ∧ c₁.sp = c₂.sp := by
   obtain ⟨c₁, h1, m1, x1, y1, p1⟩ := C01.gen_stmt_correct L s₁ c
@@ -54,17 +54,17 @@ theorem compiled_equiv (L : Layout) (s₁ s₂ : FStmt) (c : Cpu)
 theorem compiled_comm (L : Layout) (c : Cpu) (v : String) (op : BOp) (a b : Atom) (h : op.commutes = true) :
     ∃ c₁ c₂, execSeq c (genOps L (.bin v op a b)) = some c₁ ∧ execSeq c (genOps L (.bin v op b a)) = some c₂ ∧
       c₁.mem = c₂.mem ∧ c₁.x = c₂.x ∧ c₁.y = c₂.y ∧ c₁.sp = c₂.sp :=
-  compiled_equiv L _ _ c (comm_law L c.mem v op a b h)
+  compiled_equiv L _ _ c (comm_law L c.mem c.x c.y v op a b h)
 
 theorem compiled_opassign (L : Layout) (c : Cpu) (v : String) (op : BOp) (a : Atom) :
     ∃ c₁ c₂, execSeq c (genOps L (.opasg v op a)) = some c₁ ∧ execSeq c (genOps L (.bin v op (.var v) a)) = some c₂ ∧
       c₁.mem = c₂.mem ∧ c₁.x = c₂.x ∧ c₁.y = c₂.y ∧ c₁.sp = c₂.sp :=
-  compiled_equiv L _ _ c (opassign_law L c.mem v op a)
+  compiled_equiv L _ _ c (opassign_law L c.mem c.x c.y v op a)
 
 theorem compiled_incr (L : Layout) (c : Cpu) (v : String) :
     ∃ c₁ c₂, execSeq c (genOps L (.inc v)) = some c₁ ∧ execSeq c (genOps L (.opasg v .add (.const 1))) = some c₂ ∧
       c₁.mem = c₂.mem ∧ c₁.x = c₂.x ∧ c₁.y = c₂.y ∧ c₁.sp = c₂.sp :=
-  compiled_equiv L _ _ c (incr_law L c.mem v)
+  compiled_equiv L _ _ c (incr_law L c.mem c.x c.y v)
 
 /-! non-vacuity: the two spellings really are different code -/
 example : genText (.inc "a") ≠ genText (.opasg "a" .add (.const 1)) := by decide
